@@ -18,8 +18,8 @@ def main():
     pid, i = sys.argv[1], sys.argv[2]
     opts = dict(a.lstrip("-").split("=", 1) for a in sys.argv[3:] if a.startswith("--") and "=" in a)
     sys.argv = [a for a in sys.argv if not a.startswith("--")]
-    src = f"/tmp/mut/{pid}-{opts.get('out', 'out')}"
-    wt = f"/tmp/mut/{pid}"
+    src = opts.get('src') or f"/tmp/mut/{pid}-{opts.get('out', 'out')}"
+    wt = opts.get('wt') or f"/tmp/mut/{pid}"
     dst = os.path.join(ROOT, "seeded", f"{pid}-{opts.get('as', i)}")
     if os.path.exists(dst):
         shutil.rmtree(dst)
